@@ -179,6 +179,15 @@ func (e *specEnv) goal(x Expr) (g string, extra []string, err error) {
 	at = append(at, e.u.mode.idxLit(0))
 	base := append([]string{}, at...)
 	for _, gs := range e.u.ghostSyms {
+		// ghost index maps are candidates only at program points after the call that introduced them
+		if gb := e.u.ghostBlock[gs]; gb != nil && e.at != nil && e.fr != nil && gb.Parent() == e.at.Parent() {
+			if !(gb == e.at && e.inclusive) && !gb.Dominates(e.at) {
+				continue
+			}
+			if gb == e.at && !e.inclusive {
+				continue
+			}
+		}
 		for _, k := range base {
 			at = append(at, "("+gs+" "+k+")")
 		}
